@@ -157,20 +157,35 @@ def from_deserialized(facts):
                 cont = set()
                 for (e, lab, src) in atoms:
                     if isinstance(e, tuple) and e[0] == "discr" and lab == 0:
+                        # `x?` (Continue arm of Try::branch(x)) or a direct `match x { Ok(..) => .. }` / `if let Ok(..) = x`
                         for s in walk_expr(e):
                             if isinstance(s, tuple) and s[0] == "call" and norm_path(s[1]["path"]) == "core::ops::Try::branch":
                                 for s2 in walk_expr(s[2][0]):
                                     if isinstance(s2, tuple) and s2[0] == "call":
                                         cont.add(last_seg(callee_name(s2[1])))
+                        top = e[1]
+                        while isinstance(top, tuple) and top[0] in ("ref", "place", "cast"):
+                            top = top[2] if top[0] == "ref" else top[1]
+                        if isinstance(top, tuple) and top[0] == "call" and norm_path(top[1]["path"]) != "core::ops::Try::branch":
+                            cont.add(last_seg(callee_name(top[1])))
+                            for s2 in walk_expr(top):
+                                if isinstance(s2, tuple) and s2[0] == "call" and last_seg(s2[1]["path"]) in ("map_err", "map", "and_then", "or_else"):
+                                    for s3 in walk_expr(s2[2][0] if s2[2] else None):
+                                        if isinstance(s3, tuple) and s3[0] == "call":
+                                            cont.add(last_seg(callee_name(s3[1])))
                 ep = "from_deserialized" in cont
                 le = "link_edges" in cont
                 lens = {"nodes": False, "edges": False}
                 for (e, truth, src) in atoms:
                     if isinstance(e, tuple) and e[0] == "bin" and truth is True and e[1] in ("Lt", "Le") and has_call(e[2], ("len",)) and has_call(e[3], ("max",)):
-                        for k in lens:
-                            for s in walk_expr(b.expr(b.blocks[src]["term"]["d"], 10, named_leaf=True)):
-                                if isinstance(s, tuple) and s[0] == "local" and b.lname(s[1]) == k:
-                                    lens[k] = e[1]
+                        # which vector? the element type of the Vec whose len() is compared (Node<..> / Edge<..>), not the local's name
+                        for s in walk_expr(e[2]):
+                            if isinstance(s, tuple) and s[0] == "call" and last_seg(s[1]["path"]) == "len":
+                                ty = s[1].get("self", "") + " " + " ".join(map(str, s[1].get("targs", [])))
+                                if "graph_impl::Node<" in ty:
+                                    lens["nodes"] = e[1]
+                                elif "graph_impl::Edge<" in ty:
+                                    lens["edges"] = e[1]
                 o.check(b, "ok#%d:edge-property" % n, st["line"], ep, "dominated by the Ok arm of PhantomData::<Ty>::from_deserialized(edge_property)?",
                         "an Ok exit of %s::from_deserialized is not dominated by the edge-property check" % nm)
                 o.check(b, "ok#%d:link_edges" % n, st["line"], le, "dominated by the Ok arm of link_edges()",
@@ -232,8 +247,17 @@ def graph6_constants(facts):
                 a = edge_atom(b, i, "otherwise")
                 if a:
                     atoms.append(a[0])
-        short = any(isinstance(a, tuple) and a[0] == "bin" and a[1] == "Lt" and a[2] == ("arg", 1) and a[3][0] == "const" and "::N" in a[3][1] for a in atoms)
-        cap = any(isinstance(a, tuple) and a[0] == "bin" and a[1] == "Le" and a[2] == ("arg", 1) and a[3] == ("const", "258047", "usize") for a in atoms)
+        def is_n(x):
+            return isinstance(x, tuple) and x[0] == "const" and "::N" in str(x[1])
+
+        def cval(x):
+            return int(x[1]) if isinstance(x, tuple) and x[0] == "const" and str(x[1]).isdigit() else None
+        # the same split written with either polarity / operand order: order < N | N <= order ; order <= 258047 | 258047 < order | ..
+        short = any(isinstance(a, tuple) and a[0] == "bin" and ((a[1] == "Lt" and a[2] == ("arg", 1) and is_n(a[3])) or (a[1] == "Le" and is_n(a[2]) and a[3] == ("arg", 1)))
+                    for a in atoms)
+        cap = any(isinstance(a, tuple) and a[0] == "bin" and (
+            (a[1] == "Le" and a[2] == ("arg", 1) and cval(a[3]) == 258047) or (a[1] == "Lt" and a[2] == ("arg", 1) and cval(a[3]) == 258048) or
+            (a[1] == "Lt" and cval(a[2]) == 258047 and a[3] == ("arg", 1)) or (a[1] == "Le" and cval(a[2]) == 258048 and a[3] == ("arg", 1))) for a in atoms)
         if short and cap:
             r.ok(b.npath, "header-split", "short header iff order < N; long header iff order <= 258047")
         else:
@@ -245,6 +269,10 @@ def graph6_constants(facts):
             rv = st["rv"]
             if rv["k"] == "agg" and rv["ak"] == "tuple" and len(rv["o"]) == 2 and "const" in rv["o"][1]:
                 bits.append((rv["o"][0].get("const", "order"), int(rv["o"][1]["const"])))
+        # .. or passed directly: get_number_as_bits(value, width)
+        for _, t in b.calls():
+            if last_seg(t["f"]["path"]) == "get_number_as_bits" and len(t["args"]) == 2 and "const" in t["args"][1] and str(t["args"][1]["const"]).isdigit():
+                bits.append((t["args"][0].get("const", "order"), int(t["args"][1]["const"])))
         widths = sorted(set(w for _, w in bits))
         if widths == [6, 18]:
             r.ok(b.npath, "header-widths", "header fields %s" % bits)
